@@ -1673,7 +1673,8 @@ static void *peg_unmarshal(JanetMarshalContext *ctx) {
                 i += 4;
                 break;
             case RULE_ARGUMENT:
-                /* [searchtag, tag] */
+                /* [index, tag] */
+                if (((int32_t *)rule)[1] < 0) goto bad;
                 i += 3;
                 break;
             case RULE_GETTAG:
